@@ -861,3 +861,14 @@ mod tests {
         }
     }
 }
+
+/// Verification hooks: compiled only with `--cfg eigerco_lumina_verif` (see /verif).
+#[cfg(eigerco_lumina_verif)]
+#[doc(hidden)]
+#[allow(unused_imports, missing_docs, dead_code, unreachable_pub)]
+pub mod verif {
+    use super::*;
+    pub use super::client::verif as client;
+    pub use super::server::verif as server;
+    pub use super::utils::verif as utils;
+}
